@@ -196,7 +196,24 @@ fn evaluate_source(
     Ok(())
 }
 
-fn main() -> ! {
+/// Stack size of the thread the interpreter runs on. The evaluator is recursive and a
+/// Blots program may nest 1000 calls deep before the call-depth error is raised; with
+/// nested expressions in the function bodies that needs far more than the 8 MiB a main
+/// thread gets (the pages are only committed when they are actually used).
+const INTERPRETER_STACK_SIZE: usize = 1024 * 1024 * 1024;
+
+fn main() {
+    let interpreter = std::thread::Builder::new()
+        .name("main".to_string())
+        .stack_size(INTERPRETER_STACK_SIZE)
+        .spawn(|| -> () { run() })
+        .expect("failed to start the interpreter thread");
+    // `run` always ends the process itself; this is only reached if it panicked
+    let _ = interpreter.join();
+    std::process::exit(101);
+}
+
+fn run() -> ! {
     // Handle shell completion generation
     if let Some(shell) = &ARGS.completions {
         let mut cmd = cli::Args::command();
